@@ -201,13 +201,13 @@ Fixpoint store_tree (fuel : nat) (id : N) (t : vtree) : M unit :=
     | VChar ch, PChar _ => set_cell_val id (PChar ch)
     | VStr s, PStr _ => set_cell_val id (PStr s)
     | VDate d m y, PDate _ _ _ => set_cell_val id (PDate d m y)
-    | VEnum tn _ i, PEnum tn0 _ => if str_eqb tn tn0 then set_cell_val id (PEnum tn0 i) else crash "cell payload disagrees with its type"
+    | VEnum tn _ i, PEnum tn0 _ => if str_eqb tn tn0 then set_cell_val id (PEnum tn0 i) else crash "loaded value of another class than the object read into"
     | VPtr, _ => ret Datatypes.tt
     | VRec _ fs ars, PRec _ rc =>
       cx <- get_ctx rc ;;
       zipM (fun (nv : str * N) (t' : vtree) => store_tree f (snd nv) t') (x_vars cx) fs ;;;
       zipM (fun (na : str * N) (ts : list vtree) =>
               a <- get_arr (snd na) ;; zipM (fun (e : N) (t' : vtree) => store_tree f e t') (a_elems a) ts) (x_arrs cx) ars
-    | _, _ => crash "cell payload disagrees with its type"      (* Value::load reads into the object that is there: a loaded value has its class *)
+    | _, _ => crash "loaded value of another class than the object read into"      (* Value::load reads into the object that is there *)
     end
   end.
